@@ -22,4 +22,5 @@ def check(ctx):
               mc_cfgs=[] if q else [("2ecu4", "LcDetector.tla", "Lc_2ecu4.cfg")],
               driver_args=["--regressions", "--random", "400" if q else "8000", "--max-len", "40" if q else "120",
                            "--big-tables", "3" if q else "40", "--file-max", "600" if q else "6000"],
+              scripted=2500 if q else 40000,
               what="order / completeness / assignment at every delivery and at end of input")
